@@ -1,5 +1,5 @@
 """Per-property configuration: which theorems are the obligations, which runner ties the model to the code."""
-from vcheck import eval_runner, parse_runner, ana_runner
+from vcheck import eval_runner, parse_runner, ana_runner, cue_runner
 
 PROPS = {
     'C20': dict(level='proof', theorems=['Mp.ni_path_full'], runner=ana_runner, design='§6/C20',
@@ -11,6 +11,14 @@ PROPS = {
     'C11': dict(level='proof', theorems=['PermP.findKey_perm', 'Mp.findMapKey_order_independent'], runner=eval_runner, design='§6/C11',
                 text='Lean theorems: the key lookup returns the same entry for every permutation of a map\'s entries (findKey_perm over any strict total order; findMapKey_order_independent for the concrete model lookup with bytewise order and EqualFold), so map iteration order cannot influence a result; the model evaluator is a pure function (no state, no writes). Immutability of the operation and of caller data on the real code is checked by the history oracle: each operation evaluated repeatedly, interleaved, on deep copies, with deep snapshots of data and of Sprint/JSON of the operation before and after.',
                 note='purity of the Go code itself (no heap model) rests on the snapshots and on model/implementation correspondence; documents include case-colliding sibling keys.'),
+    'C13': dict(level='proof', theorems=['Mp.fvp_snoc', 'Mp.validate_walk'], runner=cue_runner, design='§6/C13',
+                text='Lean theorem validate_walk: the validator\'s identifier loop, which re-resolves the whole key path from the schema root at every key and carries the previous type along, computes the plain recursive walk of the schema type tree (reject into a primitive / across a list / undeclared key; otherwise the kind of the field) for key paths of any length over any schema tree. The model of findValueAtPath / kind mapping is tied to the real CueValidate (real cuelang) by a correspondence run on thousands of generated schemas per run, and an independent Go specification of accept-iff-declared-with-kind is the oracle on the implementation.',
+                note='CUE lookup semantics for the generated schema subset are assumed (table in DESIGN.md §6/C13) and exercised on every run; hidden+?/!, re-cased keys and lists of lists are unspecified by the property and excluded from the oracle (still compared with the model).',
+                assumptions=['cuelang.org/go v0.8.1 selector behaviour for the generated schema subset (DESIGN.md §6/C13 table)']),
+    'C15': dict(level='proof', theorems=['Deps.closure_sound', 'Deps.closure_complete', 'Deps.closure_exact'], runner=cue_runner, design='§6/C15',
+                text='Lean theorems about the worklist closure that getBlockedRootFields computes: it is a total function on every graph - cyclic, self-referential or dangling - (termination by a measure on unvisited declared names), everything it returns is reachable (closure_sound), everything reachable is returned (closure_complete), hence the allowed set is exactly the reflexive-transitive closure of the current step\'s dependencies (closure_exact). Tied to /repo by regenerated facts (the loop uses a visited set and no goto; the base-path list) and by a correspondence run over all dependency graphs on 3 steps (quick) / 4 steps (thorough: 2^16) x current step x target plus random graphs up to 12 steps, with the blocked field read at the head, in a filter, in an argument and in a nested group, and the offered root fields compared.',
+                note='the theorem is about the abstract worklist closure (Mp.Deps); the Go loop is tied to it by the extracted facts and the exhaustive small-graph correspondence, not by a translation proof; CUE evaluation of the _dependencies lists is assumed.',
+                assumptions=['cuelang evaluates `_dependencies: [\"a\", ...]` to the listed strings']),
     'C08': dict(
         level='proof',
         theorems=['Mp.scan_progress', 'Mp.parse_fuel_sufficient', 'Pool.history_independent'],
